@@ -388,3 +388,62 @@ pub fn preflight() -> Result<usize, String> {
     crate::mon::self_test()?;
     Ok(c.ok)
 }
+
+/// Fold the results of the thorough tier's sanitizer / fuzzing steps (written by /verif/san.py to the file named by
+/// VERIF_SAN_RESULT) into the tally: a report is a violation, a tool or build failure is inconclusive.
+/// Crash artifacts of the coverage-guided step are re-run here so that they become ordinary replayable violations.
+pub fn fold_sanitizer_results(t: &mut Tally, totality_only: bool) -> J {
+    let mut san = J::obj();
+    let Ok(path) = std::env::var("VERIF_SAN_RESULT") else {
+        return san;
+    };
+    let Ok(text) = std::fs::read_to_string(&path) else {
+        return san;
+    };
+    let Ok(j) = J::parse(&text) else {
+        return san;
+    };
+    if let Some(arr) = j.get("steps").and_then(|a| a.arr()) {
+        for s in arr {
+            let name = s.get("name").and_then(|x| x.str()).unwrap_or("?").to_string();
+            let status = s.get("status").and_then(|x| x.str()).unwrap_or("?");
+            let reports = s.get("reports").and_then(|x| x.int()).unwrap_or(0);
+            let detail = s.get("detail").and_then(|x| x.str()).unwrap_or("").to_string();
+            t.add(&format!("sanitizer/{}/reports", name), reports as u64);
+            if let Some(n) = s.get("executed").and_then(|x| x.int()) {
+                t.add(&format!("sanitizer/{}/executed", name), n as u64);
+                t.evaluations += n as u64;
+            }
+            match status {
+                "clean" => t.count(&format!("sanitizer/{}/clean", name)),
+                "report" => {
+                    let mut reproduced = 0;
+                    if let Some(arts) = s.get("artifacts").and_then(|a| a.arr()) {
+                        for a in arts {
+                            if let Some(data) = a.str().and_then(|p| std::fs::read(p).ok()) {
+                                if let Some((prop, mut v)) = crate::fuzz::one(&data, totality_only) {
+                                    v.detail = format!("[coverage-guided workload, finding class {}] {}", prop, v.detail);
+                                    t.violate(v);
+                                    reproduced += 1;
+                                }
+                            }
+                        }
+                    }
+                    if reproduced == 0 {
+                        t.violate(Violation {
+                            monitor: "sanitizer".into(),
+                            signature: format!("sanitizer|{}", name),
+                            detail: format!("{} reported {} problem(s): {}", name, reports, detail),
+                            case: None,
+                            extra: s.clone(),
+                            known: None,
+                        });
+                    }
+                }
+                other => t.inconclusive.push(format!("sanitizer step {}: {} ({})", name, other, truncate(&detail, 300))),
+            }
+        }
+    }
+    san = j;
+    san
+}
